@@ -2,7 +2,7 @@
 # usage: tools/seed_own.sh  -- every seeded change against the check of the property it breaks (quick tier, VERIF_STOP_FIRST sweep mode: task dispatch stops after the first confirmed violation); appends to seeded/own.tsv
 cd /verif
 OUT=seeded/own.tsv
-for s in seeded/C*_[srtu][0-9]*/; do
+for s in seeded/C*_[a-z][0-9]*/; do
   n=$(basename $s)
   c=$(python3 -c "import json; print(json.load(open('$s/meta.json'))['breaks_property'])")
   if grep -q "^$n	" $OUT 2>/dev/null; then continue; fi
